@@ -177,6 +177,11 @@ type fidRef struct {
 	// The node above will be closed only when refs reaches zero.
 	refs int64
 
+	// openedMu serializes Tlopen on this fidRef: the check that it is not
+	// open yet, the backend's Open and the update of opened/openFlags form
+	// one critical section, so that Open is invoked at most once.
+	openedMu sync.Mutex
+
 	// opened indicates whether this has been opened already.
 	//
 	// This is updated in handlers.go.
